@@ -278,6 +278,7 @@ def run(repo='/repo', tier='quick'):
                       'the look-ahead at +%d is guarded by (position + %d) < len: %s' % (k, g, 'an escape pair that ends the value is not decoded' if g > k else 'it reads past the value'), cnd[0]['loc'])
     c14g(db, res)
     c14h(db, res)
+    c14i(db, res)
     res.assumptions.append('byte-exact parts and equality of flags across chunkings are not decided')
     return res
 
@@ -317,6 +318,27 @@ def c14g(db, res):
 
 
 
+def c14i(db, res):
+    """The line/data mode of the current part and the part's type are decided together at the empty line that ends the part
+    headers.  A part whose type has been decided but which is still in line mode has its data parsed as header lines."""
+    res.rule('C14.i', 'a part whose type has been decided is in data mode: in htp_mpart_part_handle_data every assignment of a type to the part is preceded on every path by the switch current_part_mode = MODE_DATA, or followed by it on every path to the function exit (error exits included: the caller goes on feeding the part)')
+    f = db.get('htp_mpart_part_handle_data')
+    dom = C.dominators(f)
+    is_mode = lambda st: any(w['k'] == 'assign' and P.K(w['r']) == 'MODE_DATA' for w in P.assigns_field(st, 'current_part_mode'))
+    modes = C.stmt_positions(f, is_mode)
+    n = 0
+    for b, i, st in C.stmt_positions(f, lambda st: bool(P.assigns_field(st, 'type'))):
+        for w in P.assigns_field(st, 'type'):
+            if w.get('k') != 'assign' or not P.K(w['r']).startswith('MULTIPART_PART_'):
+                continue
+            n += 1
+            before = any((mb in dom[b] and mb != b) or (mb == b and mi < i) for mb, mi, _ in modes)
+            after = before or C.every_path_passes(f, (b, i), None, is_mode)[0]
+            res.check(after, 'C14.i', 'htp_mpart_part_handle_data:type=%s' % P.K(w['r']), 'the part is in data mode whenever it has this type',
+                      'the part is given the type %s on a path on which it is not (or not yet) switched to data mode: when the function leaves early (a failed temporary file, a failed allocation) the part stays in line mode with its type decided, and its data is then parsed as header lines and never reaches the file/value' % P.K(w['r']), w['loc'])
+    res.floor('C14.i', 'type decisions in htp_mpart_part_handle_data', n, 2)
+
+
 def c14h(db, res):
     """Bytes set aside while a boundary is being looked for belong to a part.  When the stream ends they are released into
     the current part - or, when no part has been started yet (everything seen of the last part ended in a newline and is
@@ -339,3 +361,18 @@ def c14h(db, res):
             bad = facts
     res.check(bad is None and n > 0, 'C14.h', 'htp_mpartp_finalize:set-aside-bytes-replayed', 'all %d paths to the clearing replay the set-aside bytes or know there are none' % n,
               'htp_mpartp_finalize clears boundary_pieces on a path (%s) that neither replays them nor knows they are empty: when the last part has not been started yet - all of it ended in a newline and was set aside - it is lost, e.g. an epilogue that arrives in one chunk' % (bad,), f.loc)
+    # the CR set aside at the end of a chunk is released by the same routine: the last part is not finalised with it still owed
+    fins = [(b, i) for b, i, c in f.calls('htp_mpart_part_finalize_data')]
+    n, bad = 0, None
+    for atoms, events, end, seq in P.enum_paths_seq(f, (f.entry, -1), stop=lambda bb, ii, st: (bb, ii) in fins):
+        if end[0] != 'stop':
+            continue
+        n += 1
+        facts = [a for a, bb in atoms]
+        replayed = any(x[0] == 'stmt' and any(c.get('callee') == 'htp_martp_process_aside' for c in nodes(x[3], lambda y: y.get('k') == 'call')) for x in seq)
+        nocr = any(a[0].endswith('cr_aside') and ((a[1] == '==' and a[2] == '0') or (a[1] == '<=' and a[2] == '0')) for a in facts)
+        if not (replayed or nocr) and P.feasible(f, facts):
+            bad = facts
+    res.check(bad is None and n > 0, 'C14.h', 'htp_mpartp_finalize:set-aside-CR-released', 'all %d paths to the finalisation of the last part release the set-aside CR or know there is none' % n,
+              'htp_mpartp_finalize finalises the last part on a path (%s) that neither runs htp_martp_process_aside nor knows cr_aside == 0: a CR that is the last byte of the stream is dropped from the last part' % (bad,), f.loc)
+    res.floor('C14.h', 'finalisations of the last part', len(fins), 1)
